@@ -40,7 +40,8 @@ LEVEL = "exploration"
 RULE = ("generated stack shapes of depth 1-6: each position a recorder layer class, a recorder instance, an explicit "
         "YowParallelLayer of 1-4 recorder classes or a plain tuple (implicit group); both order conventions; built through the "
         "YowStack constructor or a generated YowStackBuilder script (push/pop); recorders pass, drop or duplicate data, optionally "
-        "consume the event (by overriding onEvent or through @EventCallback) and optionally expose an interface; one data "
+        "consume the event (by overriding onEvent or through @EventCallback), optionally expose an interface and optionally derive "
+        "from the class of an earlier recorder (lookups are by exact class); one data "
         "transfer in each direction and one event per case with emitter = any layer, any group member or the stack object, "
         "direction emit/broadcast, detached or not. Enumerated: the 16 flag combinations of getDefaultLayers/getProtocolLayers and "
         "the 64 combinations of getDefaultStack (32 flag combinations x extra top layer). Non-trivial = a group of >= 2 members "
@@ -65,7 +66,10 @@ class _StopLoop(BaseException):
 # ----------------------------------------------------------------------------------------------
 # recorder layers
 
-def make_recorder(spec):
+def make_recorder(spec, base=None):
+    """base: the class of an earlier recorder this one derives from (the library's own layers are related by inheritance
+    too: every protocol layer derives from YowProtocolLayer, the encryption layers from a common base); every method is
+    defined afresh, so a derived recorder behaves exactly as its description says"""
     name = spec["n"]
     mode = spec.get("mode", "pass")
     consume = bool(spec.get("consume"))
@@ -104,7 +108,25 @@ def make_recorder(spec):
             LOG.append(("ev", name))
             return consume and ev.getName() == EV
         ns["onEvent"] = onEvent
-    return type("Rec_" + name, (YowLayer,), ns)
+    if base is not None and hook == "callback":
+        ns["onEvent"] = YowLayer.onEvent
+    return type("Rec_" + name, (base or YowLayer,), ns)
+
+
+def make_classes(items):
+    flat = []
+    classes = []
+    for it in items:
+        row = []
+        for m in it["members"]:
+            base = None
+            if m.get("sub_of") is not None and flat:
+                base = flat[m["sub_of"] % len(flat)]
+            c = make_recorder(m, base)
+            flat.append(c)
+            row.append(c)
+        classes.append(row)
+    return classes
 
 
 # ----------------------------------------------------------------------------------------------
@@ -248,7 +270,9 @@ def run_case(case):
         return _helpers(case, out)
     items = case["items"]
     positions = model_positions(items)
-    classes = [[make_recorder(m) for m in it["members"]] for it in items]
+    classes = make_classes(items)
+    flat_members = [m for it in items for m in it["members"]]
+    out_related = any(m.get("sub_of") is not None for m in flat_members[1:])
     del LOG[:]
     _clear(YowStack)
     try:
@@ -259,6 +283,8 @@ def run_case(case):
     has_group = any(len(p) >= 2 for p in positions)
     out.label("build=" + case.get("build", "ctor"), "order=" + case.get("order", "bottom_up"),
               "depth=%d" % len(items), "group" if has_group else "flat")
+    if out_related:
+        out.label("related_classes")
     for it in items:
         out.label("item=" + it["k"])
     # --- assembly: the given layers in the given order
@@ -570,7 +596,8 @@ def shape_strategy():
                     "mode": draw(st.sampled_from(["pass", "pass", "pass", "pass", "drop", "dup"])),
                     "consume": draw(st.sampled_from([False, False, False, True])),
                     "iface": draw(st.booleans()),
-                    "hook": draw(st.sampled_from(["override", "override", "callback"]))}
+                    "hook": draw(st.sampled_from(["override", "override", "callback"])),
+                    "sub_of": draw(st.sampled_from([None, None, 0, 1, 2, 3, 5, 7]))}
         for _ in range(depth):
             k = draw(st.sampled_from(["cls", "cls", "inst", "par", "par", "tuple"]))
             n = 1 if k in ("cls", "inst") else draw(st.integers(1, 4))
